@@ -134,6 +134,7 @@ func FindRecordStartIdx(dirFilename string, total int, createTime types.Time4, f
 
 	startStart := ptttype.SortIdxInStore(0)
 	endEnd := ptttype.SortIdxInStore(total) - 1
+	verifPoint("find.opened", dirFilename)
 	startStart, _, err = findValidRecordIdxInStore(startStart, file, header, false, startStart, endEnd)
 	if err != nil {
 		return -1, err
